@@ -556,6 +556,26 @@ class Run:
             raise Violation(['C09'] + [t for t in tags if t != 'C09'],
                             'O-thread', 'deadlock',
                             {'info': str(real.exc_obj)}, i)
+        if real.kind != 'ok' and step.get('expect_fail') and \
+                real.exc == 'UserError':
+            # the root function raised after the threads were joined: the
+            # build is rolled back to its pre-state (C02), whoever won
+            self.stats['rollbacks'] += 1
+
+            def shape(snap):
+                return {p: (n[0],) + ((n[1], n[2]) if n[0] == 'f' else ())
+                        for p, n in snap.items()}
+            a_, b_ = shape(pre), shape(post)
+            if a_ != b_:
+                diff = sorted(set(a_) ^ set(b_)) or sorted(
+                    p for p in a_ if a_[p] != b_.get(p))
+                p0 = diff[0]
+                key = 'not-restored' if p0 in a_ else (
+                    'extra-f' if b_[p0][0] == 'f' else 'extra-d')
+                raise Violation(['C02'] + [t for t in tags if t != 'C02'],
+                                'O-tree', key, {'path': sb.rel(p0)}, i)
+            self.probe('race-rollbacks-checked')
+            return
         if real.kind != 'ok':
             raise Violation(props, 'O-ret', 'unexpected-exception',
                             {'exc': real.exc, 'tb': real.tb}, i)
@@ -589,6 +609,41 @@ class Run:
                 raise Violation(
                     props, 'O-thread', 'duplicate-undetected',
                     {'key': k, 'performed': perf[k], 'how': why[k]}, i)
+        # a refusal needs a reason: the key itself, or a key of its recorded
+        # subtree, was performed in this build (a rejected attempt to reuse a
+        # cached subtree must leave nothing behind that blocks later calls)
+        def closure(key, acc, depth=0):
+            if key not in recs:
+                return False
+            for k, ok in recs[key]:
+                # (failed children too: a recorded failure occupies its key)
+                if k not in acc:
+                    acc.add(k)
+                    if depth < 8 and k in recs:
+                        closure(k, acc, depth + 1)
+            return True
+
+        attempts = {}
+        for e in rit.calls_log:
+            # (a function that was entered and did not create its file also
+            # ends in a RuntimeError: an attempt, not a refusal)
+            if e['exc'] != 'RuntimeError' or e['entered']:
+                attempts[e['key']] = attempts.get(e['key'], 0) + 1
+        for e in rit.calls_log:
+            if not e['ok'] and e['exc'] == 'RuntimeError' and \
+                    not e['entered']:
+                K = e['key']
+                if perf.get(K, 0) >= 1 or attempts.get(K, 0) >= 1:
+                    continue
+                sub = set()
+                if not closure(K, sub):
+                    continue
+                if any(perf.get(k, 0) >= 1 or attempts.get(k, 0) >= 1
+                       for k in sub):
+                    continue
+                raise Violation(props, 'O-thread', 'spurious-refusal',
+                                {'key': K, 'in': e['frame'],
+                                 'subtree': sorted(sub)}, i)
         if perf:
             self.probe('race-keys-checked', len(perf))
         if any(e['exc'] == 'RuntimeError' for e in rit.calls_log):
